@@ -147,13 +147,16 @@ def scan(source: str, callback: callable):
                 # NB: token may start with selector colon(s) consumed above, e.g. `::before`
                 state.start = scanner.start
 
-            if scanner.eat(Chars.LeftRound):
+            if scanner.pos != scanner.start:
+                # Selector colon(s) (`::`, `(a:`) consumed by the test above are
+                # a token of their own: whatever follows (comment, brace, end of
+                # source) must be examined on next iteration, not skipped
+                pass
+            elif scanner.eat(Chars.LeftRound):
                 state.expression += 1
             elif scanner.eat(Chars.RightRound):
                 state.expression -= 1
-            elif not literal(scanner) and not scanner.eof():
-                # NB: a selector colon (`::`, `(a:`) may have been consumed right
-                # before the end of source, so there may be nothing left to skip
+            elif not literal(scanner):
                 scanner.pos += 1
 
             state.end = scanner.pos
